@@ -85,7 +85,7 @@ def h_slg(E, ordered, partial, n_exp, n_stu, interior, delim, perm_check, blank=
     return [list(t) for t in tags] + [shown, str(r['ok'])]
 
 
-def h_alts(E, ordered, interior):
+def h_alts(E, ordered, interior, form='two-answers'):
     """two alternative expected lists with their own credits"""
     from mitxgraders import SingleListGrader
     A, B, stus = ['a0', 'a1'], ['b0', 'b1'], ['s0', 's1']
@@ -93,7 +93,12 @@ def h_alts(E, ordered, interior):
     ca = E.real('ca', 0, 1)
     cb = E.real('cb', 0, 1)
     TG = make_table_grader(T)
-    g = SingleListGrader(answers=({'expect': list(A), 'grade_decimal': ca}, {'expect': list(B), 'grade_decimal': cb}), subgrader=TG(), ordered=ordered)
+    if form == 'expect-tuple':
+        # the alternatives sit inside ONE answer (tuple-valued expect): one credit for both, the better-matching list counts
+        cb = ca
+        g = SingleListGrader(answers={'expect': (list(A), list(B)), 'grade_decimal': ca}, subgrader=TG(), ordered=ordered)
+    else:
+        g = SingleListGrader(answers=({'expect': list(A), 'grade_decimal': ca}, {'expect': list(B), 'grade_decimal': cb}), subgrader=TG(), ordered=ordered)
     r = g(None, 's0, s1')
     s_ok, c_ok = wellformed(r)
     E.check('wellformed', sand(s_ok, c_ok))
@@ -203,6 +208,7 @@ def harnesses(tier):
     add(h_slg, 'slg', dict(ordered=False, partial=True, n_exp=2, n_stu=2, interior=False, delim='--', perm=True), 'credits in [0,1], permuted resubmission')
     for ordered in (True, False):
         add(h_alts, 'alts', dict(ordered=ordered, interior=True), '2 alternative lists of 2 items')
+        add(h_alts, 'alts', dict(ordered=ordered, interior=True, form='expect-tuple'), '2 alternative lists inside one tuple-valued expect')
     add(h_nested, 'nested', dict(inner_ordered=True, outer_ordered=False, interior=True), '2x2 nested, ";" and ","')
     add(h_nested, 'nested', dict(inner_ordered=True, outer_ordered=True, interior=False), '2x2 nested, ";" and ","')
     for le in (True, False):
